@@ -21,6 +21,9 @@
 #include "vcommon.h"
 #include "opus_encoder.c"
 #include "opus_multistream.h"
+#ifndef MS_FRAME_TMP
+#define MS_FRAME_TMP (6*1275+12)   /* opus_multistream_encoder.c */
+#endif
 
 /* ------------------------------------------------------------------ dual evaluation */
 typedef struct { long long a; opus_int32 b; } D;
@@ -149,6 +152,91 @@ static void t_bt(int fs, int fsz, int br, int m, int red)
    emit();
 }
 
+/* opus_encoder.c:1616-1681 */
+static void t_ml(int fs, int mode, int vbr, int ub, int fsz, int out, int cbr)
+{
+   D e, nb, x, hdr, rl, y;
+   printf("I encskel ranges ml %d %d %d %d %d %d %d\n", fs, mode, vbr, ub, fsz, out, cbr); ntr = 0;
+   REC(DIV(K(fs), K(50))); x = REC(MUL(K(3), K(fs))); REC(DIV(x, K(50)));        /* frame_size > st->Fs/50, > 3*st->Fs/50 */
+   x = REC(MUL(K(2), K(fs))); REC(DIV(x, K(25))); REC(DIV(MUL(K(3), K(fs)), K(25))); REC(DIV(K(fs), K(25)));
+   if (mode == MODE_SILK_ONLY) e = K(fsz == 2 * fs / 25 ? fs / 25 : fsz == 3 * fs / 25 ? 3 * fs / 50 : fs / 50);
+   else e = K(fs / 50);
+   REC(e);
+   nb = REC(DIV(K(fsz), e));                                       /* nb_frames = frame_size/enc_frame_size */
+   x = REC(SUB(nb, K(1))); x = REC(MUL(x, K(2))); hdr = REC(ADD(K(2), x));       /* 2+(nb_frames-1)*2 */
+   if (nb.a == 2) hdr = K(3);
+   rl = REC((vbr || ub == OPUS_BITRATE_MAX) ? K(out) : MIN_(K(cbr), K(out)));
+   y = REC(ADD(nb, rl)); REC(SUB(y, hdr));                         /* nb_frames + repacketize_len - max_header_bytes */
+   emit();
+}
+/* opus_encoder.c:1709-1716 */
+static void t_cm(int fs, int br, int efs, int nb, int mls, int tot)
+{
+   D b3, d, q, a, c, r;
+   printf("I encskel ranges cm %d %d %d %d %d %d\n", fs, br, efs, nb, mls, tot); ntr = 0;
+   b3 = REC(MUL(K(3), K(br)));
+   d = REC(MUL(K(24), K(fs))); d = REC(DIV(d, K(efs)));
+   q = REC(DIV(b3, d));                                            /* 3*st->bitrate_bps/(3*8*st->Fs/enc_frame_size) */
+   a = REC(DIV(K(mls), K(nb)));                                    /* max_len_sum/nb_frames */
+   c = REC(MIN_(q, a));
+   r = REC(SUB(K(mls), K(tot)));
+   c = REC(MIN_(r, c));
+   REC(MIN_(c, K(1276)));
+   emit();
+}
+/* opus_encoder.c:768-791 */
+static void t_fss(int fsz, int vd, int fs)
+{
+   D ns, d, x; long long real, r;
+   printf("I encskel ranges fss %d %d %d\n", fsz, vd, fs); ntr = 0;
+   fflush(stdout);
+   real = frame_size_select(fsz, vd, fs);
+   REC(DIV(K(fs), K(400)));
+   if (fsz < fs / 400) { r = -1; goto done; }
+   if (vd == OPUS_FRAMESIZE_ARG) ns = K(fsz);
+   else if (vd >= OPUS_FRAMESIZE_2_5_MS && vd <= OPUS_FRAMESIZE_120_MS) {
+      d = REC(SUB(K(vd), K(OPUS_FRAMESIZE_2_5_MS)));
+      if (vd <= OPUS_FRAMESIZE_40_MS) ns = REC(MUL(K(fs / 400), K(1LL << d.a)));   /* (Fs/400)<<(vd-2_5_MS) */
+      else { x = REC(SUB(d, K(2))); x = REC(MUL(x, K(fs))); ns = REC(DIV(x, K(50))); }
+   } else { r = -1; goto done; }
+   if (ns.a > fsz) { r = -1; goto done; }
+   x = REC(MUL(K(6), K(fs))); REC(DIV(x, K(50)));
+   if (ns.a > 6 * fs / 50) { r = -1; goto done; }
+   REC(MUL(K(400), ns)); REC(MUL(K(200), ns)); REC(MUL(K(100), ns)); REC(MUL(K(50), ns)); REC(MUL(K(25), ns));
+   REC(MUL(K(3), K(fs))); REC(MUL(K(4), K(fs))); REC(MUL(K(5), K(fs)));
+   r = (400 * ns.a != fs && 200 * ns.a != fs && 100 * ns.a != fs && 50 * ns.a != fs && 25 * ns.a != fs && 50 * ns.a != 3LL * fs
+        && 50 * ns.a != 4LL * fs && 50 * ns.a != 5LL * fs && 50 * ns.a != 6LL * fs) ? -1 : ns.a;
+done:
+   REC(K(r));
+   if (real != r) realdiff("fss", real); else emit();
+}
+/* opus_multistream_encoder.c:856-859, :878-888, :976-986 */
+static void t_ms(int vbr, int br, int rs, int nb, int fs, int fsz, int m, int tot, int s)
+{
+   D sp, fr, r3, b3, d, q1, q2, mm, cm, x, y, f8;
+   printf("I encskel ranges ms %d %d %d %d %d %d %d %d %d\n", vbr, br, rs, nb, fs, fsz, m, tot, s); ntr = 0;
+   sp = REC(MUL(K(nb), K(2))); sp = REC(SUB(sp, K(1)));            /* smallest_packet = nb_streams*2-1 */
+   fr = REC(DIV(K(fs), K(fsz)));
+   if (fr.a == 10) sp = ADD(sp, K(nb));
+   REC(sp);
+   r3 = REC(MUL(K(3), K(rs))); b3 = REC(MUL(K(3), K(br)));
+   d = REC(MUL(K(24), K(fs))); d = REC(DIV(d, K(fsz)));            /* 3*8*Fs/frame_size */
+   q1 = REC(DIV(r3, d)); q2 = REC(DIV(b3, d));
+   mm = K(m);
+   if (!vbr) { if (br == OPUS_AUTO) mm = MIN_(mm, q1); else if (br != OPUS_BITRATE_MAX) mm = MIN_(mm, MAX_(sp, q2)); }
+   REC(mm);
+   cm = REC(SUB(mm, K(tot)));
+   x = REC(SUB(K(nb), K(s))); x = REC(SUB(x, K(1))); y = REC(MUL(K(2), x)); y = REC(SUB(y, K(1)));   /* 2*(nb_streams-s-1)-1 */
+   cm = REC(SUB(cm, MAX_(K(0), y)));
+   if (fr.a == 10) cm = SUB(cm, x);
+   cm = MIN_(cm, K(MS_FRAME_TMP));
+   if (s != nb - 1) cm = SUB(cm, K(cm.a > 253 ? 2 : 1));
+   f8 = REC(MUL(K(8), K(fs))); f8 = REC(DIV(f8, K(fsz)));
+   REC(MUL(cm, f8));                                               /* curr_max*(8*Fs/frame_size) */
+   REC(cm);
+   emit();
+}
+
 /* ------------------------------------------------------------------ generators */
 static const int FS[5] = {8000, 12000, 16000, 24000, 48000};
 static int dur(int fs, int k) { static const int n[9] = {1, 2, 4, 8, 16, 24, 32, 40, 48}; return fs / 400 * n[k]; }
@@ -173,6 +261,7 @@ static void run_trace(unsigned long long seed, long n)
 {
    vrng r; long i; int a, b, c;
    static const int MODES[4] = {0, MODE_SILK_ONLY, MODE_HYBRID, MODE_CELT_ONLY};
+   static const int OUTS[12] = {1, 2, 3, 4, 255, 1275, 1276, 1277, 4000, 65536, 100000000, 2147483641};
    r.s = seed * 0x9E3779B97F4A7C15ULL + 5;
    /* grids: every Fs x duration at the extreme settings */
    for (a = 0; a < 5; a++) for (b = 0; b < 9; b++) {
@@ -185,6 +274,14 @@ static void run_trace(unsigned long long seed, long n)
       }
       t_cbr(fs, fsz, 4083200, 1276); t_cbr(fs, fsz, 0, 1); t_cbr(fs, fsz, 500, 1276); t_cbr(fs, fsz, 600000, 1276);
       t_gate(fs, fsz, 4083200, 1276, 1276); t_gate(fs, fsz, 0, 0, 1);
+      if (fsz > fs / 50) for (c = 0; c < 12; c++) {
+         t_ml(fs, MODE_SILK_ONLY, 1, 64000, fsz, OUTS[c], -1); t_ml(fs, MODE_CELT_ONLY, 0, OPUS_BITRATE_MAX, fsz, OUTS[c], 1276);
+         t_ml(fs, MODE_HYBRID, 0, 64000, fsz, OUTS[c], 1276);
+      }
+      for (c = 5000; c <= 5010; c++) { t_fss(fsz, c, fs); t_fss(2147483647, c, fs); t_fss(fsz - 1, c, fs); t_fss(6 * fs / 50 + 1, c, fs); }
+      t_ms(0, OPUS_AUTO, 715827882, 255, fs, fsz, 2147483647, 0, 0); t_ms(0, 76500000, 76500000, 255, fs, fsz, 2147483647, 0, 254);
+      t_ms(1, OPUS_BITRATE_MAX, 500, 1, fs, fsz, 1, 0, 0); t_ms(0, 500, 500, 255, fs, fsz, 100000, 0, 0);
+      t_cm(fs, 4083200, fs / 50, 6, 2147483647, 0); t_cm(fs, 0, 3 * fs / 50, 2, 2, 2); t_cm(fs, 600000, fs / 25, 2, 4001, 1276);
       if (fsz <= 3 * fs / 50) { t_bt(fs, fsz, 600000, 1276, 0); t_bt(fs, fsz, 1276 * 8 * (fs / fsz), 1276, 257); t_bt(fs, fsz, 500, 1, 0); }
    }
    for (i = 0; i < n; i++) {
@@ -195,6 +292,14 @@ static void run_trace(unsigned long long seed, long n)
       t_gate(fs, fsz, br, rbits(&r, 0, m), m);
       t_er(vchance(&r, 30) ? rbits(&r, 0, 4083200) : br, ch, fs / fsz, vbelow(&r, 2), mode, rbits(&r, 0, 10), rbits(&r, 0, 100));
       t_rb(m, vchance(&r, 30) ? rbits(&r, 0, 4083200) : br, fs / fsz, ch);
+      if (k >= 4) t_ml(fs, mode ? mode : MODE_CELT_ONLY, vbelow(&r, 2), user_rate(&r, ch), fsz,
+                       vchance(&r, 50) ? rbits(&r, 1, 4000) : rbits(&r, 1, 2147483641), rbits(&r, 0, 1276));
+      { int nb = 2 + vbelow(&r, 5), efs = fs / 50 * (1 + vbelow(&r, 3)), mls = vchance(&r, 70) ? rbits(&r, 0, 9000) : rbits(&r, 0, 2147483647);
+        t_cm(fs, br, efs, nb, mls, rbits(&r, 0, mls)); }
+      t_fss(vchance(&r, 50) ? fsz : rbits(&r, 0, 2147483647), vchance(&r, 10) ? (int)vnext(&r) : 5000 + (int)vbelow(&r, 10), fs);
+      { int nb = rbits(&r, 1, 255), mm = vchance(&r, 50) ? rbits(&r, 1, 9000) : rbits(&r, 1, 2147483647), tot = rbits(&r, 0, mm);
+        int ub = vchance(&r, 30) ? OPUS_AUTO : vchance(&r, 30) ? OPUS_BITRATE_MAX : rbits(&r, 500, 76500000);
+        t_ms(vbelow(&r, 2), ub, rbits(&r, 500, 715827882), nb, fs, fsz, mm, tot, rbits(&r, 0, nb - 1)); }
       { int e = dur(fs, vbelow(&r, 6)); int b2 = some_bitrate(&r, fs, vchance(&r, 50) ? e : fsz >= e ? fsz : e, ch, m);
         t_bt(fs, e, b2, m, rbits(&r, 0, m < 257 ? m : 257)); }
    }
@@ -203,6 +308,7 @@ static void run_trace(unsigned long long seed, long n)
 /* ------------------------------------------------------------------ search: the real encoder under UBSan */
 static short pcmbuf[5760 * 2];
 static long ncfg;
+static int g_maxbw;   /* OPUS_SET_MAX_BANDWIDTH for the next configuration (0 = leave) */
 static void fill_pcm(vrng *r, int kind)
 {
    int i;
@@ -217,13 +323,14 @@ static void enc_case(vrng *r, int fs, int ch, int app, int k, int ub, int vbr, i
    if (!e) { printf("C create-failed fs=%d ch=%d app=%d\n", fs, ch, app); return; }
    opus_encoder_ctl(e, OPUS_SET_BITRATE(ub)); opus_encoder_ctl(e, OPUS_SET_VBR(vbr)); opus_encoder_ctl(e, OPUS_SET_VBR_CONSTRAINT(cvbr));
    if (fmode) opus_encoder_ctl(e, OPUS_SET_FORCE_MODE(fmode));
+   if (g_maxbw) opus_encoder_ctl(e, OPUS_SET_MAX_BANDWIDTH(g_maxbw));
    opus_encoder_ctl(e, OPUS_SET_COMPLEXITY(cx)); opus_encoder_ctl(e, OPUS_SET_PACKET_LOSS_PERC(loss)); opus_encoder_ctl(e, OPUS_SET_INBAND_FEC(fec));
    buf = (unsigned char *)malloc(out > 0 ? out : 1);
    if (!buf) { printf("C malloc-failed out=%ld\n", out); opus_encoder_destroy(e); return; }
    for (i = 0; i < 3; i++) {
       fill_pcm(r, (int)((ncfg + i) % 3));
-      printf("C enc fs=%d ch=%d app=%d frame=%d ub=%d vbr=%d cvbr=%d fmode=%d cx=%d loss=%d fec=%d call=%d out=%ld\n",
-             fs, ch, app, fsz, ub, vbr, cvbr, fmode, cx, loss, fec, i, out);
+      printf("C enc fs=%d ch=%d app=%d frame=%d ub=%d vbr=%d cvbr=%d fmode=%d cx=%d loss=%d fec=%d maxbw=%d call=%d out=%ld\n",
+             fs, ch, app, fsz, ub, vbr, cvbr, fmode, cx, loss, fec, g_maxbw, i, out);
       fflush(stdout);
       ret = opus_encode(e, pcmbuf, fsz, buf, (opus_int32)out);
       printf("R %d\n", ret);
@@ -280,6 +387,12 @@ static void run_enc(unsigned long long seed, int level, int huge)
          enc_case(&r, FS[a], c, APPS[vbelow(&r, 3)], k, ub, v != 2, v == 1, fm, out, cx, loss, vbelow(&r, 2));
       }
    }
+   /* long SILK-only frames at the highest rates the ctl lets through (bitrate_bps*frame_size, opus_encoder.c:1867) */
+   g_maxbw = OPUS_BANDWIDTH_WIDEBAND;
+   for (a = 0; a < 5; a++) for (k = 3; k < 9; k++) for (c = 1; c <= 2; c++) for (u = 0; u < 3; u++) for (v = 0; v < 2; v++)
+      enc_case(&r, FS[a], c, OPUS_APPLICATION_VOIP, k, u == 0 ? 300000 * c : u == 1 ? 2147483647 : OPUS_BITRATE_MAX, !v, 0, MODE_SILK_ONLY,
+               u == 2 ? 1276 : 4000, 10, v ? 100 : 0, v);
+   g_maxbw = 0;
    /* multistream: many channels, extreme rates */
    for (a = 0; a < 5; a += (level ? 1 : 2)) for (k = 0; k < 9; k += (level ? 1 : 3)) for (u = 0; u < 4; u++) {
       static const int NCH[6] = {1, 2, 6, 8, 64, 255};
